@@ -49,16 +49,28 @@ def configEngine : Engine := fun inp obs =>
     | _, _ => .bad "hex"
   | _ => .bad "arity"
 
+/-- NUL-terminated records of a listing -/
+def nulRecords (l : Bytes) : List Bytes :=
+  (l.foldl (fun (acc : List Bytes × Bytes) b => if b = 0 then (acc.2.reverse :: acc.1, []) else (acc.1, b :: acc.2)) ([], [])).1.reverse
+
+/-- every record git reports for the repository in the caller's environment is in the listing that
+    `GetConfig` reads, in git's order (`GitCommand` may add entries of its own, never drop one) -/
+def scopesKept (indep listing : Bytes) : Bool := (nulRecords indep).isSublist (nulRecords listing)
+
 def configE2EEngine : Engine := fun inp obs =>
   match inp, obs with
-  | [_, _, _, ph], "ok" :: lh :: rest =>
-    match Bytes.ofHex lh, Bytes.ofHex ph with
-    | some l, some p => listingVerdict l p ("ok" :: rest)
-    | _, _ => .bad "hex"
-  | [_, _, _, ph], ["err", lh] =>
-    match Bytes.ofHex lh, Bytes.ofHex ph with
-    | some l, some p => listingVerdict l p ["err"]
-    | _, _ => .bad "hex"
+  | [_, _, _, ph], ["ok", lh, cfg, ih] =>
+    match Bytes.ofHex lh, Bytes.ofHex ph, Bytes.ofHex ih with
+    | some l, some p, some i =>
+      if !scopesKept i l then .viol "C15,C14" "an entry that git reports for the repository (caller's environment) is missing from the listing GetConfig reads"
+      else listingVerdict l p ["ok", cfg]
+    | _, _, _ => .bad "hex"
+  | [_, _, _, ph], ["err", lh, ih] =>
+    match Bytes.ofHex lh, Bytes.ofHex ph, Bytes.ofHex ih with
+    | some l, some p, some i =>
+      if !scopesKept i l then .viol "C15,C14" "an entry that git reports for the repository (caller's environment) is missing from the listing GetConfig reads"
+      else listingVerdict l p ["err"]
+    | _, _, _ => .bad "hex"
   | _, ["git-rejects-config"] => .ok "trivial"
   | _, ["setup-failed"] => .bad "could not create the scratch repository"
   | _, ["panic"] => .viol "C15,C10" "GetConfig panics"
